@@ -41,6 +41,7 @@ type Access struct {
 	Kind   string   `json:"kind"`  // r | w | a (address passed to a sync/atomic function)
 	Locked bool     `json:"locked"`
 	After  []string `json:"after"` // synchronising operations lexically before the access in the same function
+	Then   []string `json:"then"`  // synchronising operations lexically after the access in the same function
 	Line   int      `json:"-"`
 }
 
@@ -395,6 +396,15 @@ func accesses(fset *token.FileSet, pkg, fname string, fd *ast.FuncDecl, info *ty
 			}
 		}
 		sort.Strings(after)
+		then := []string{}
+		seenThen := map[string]bool{}
+		for _, op := range syncOps {
+			if op.pos > s.Pos() && !seenThen[op.name] {
+				seenThen[op.name] = true
+				then = append(then, op.name)
+			}
+		}
+		sort.Strings(then)
 		locked := false
 		for _, i := range ivs {
 			if s.Pos() >= i.from && s.Pos() < i.to {
@@ -404,7 +414,7 @@ func accesses(fset *token.FileSet, pkg, fname string, fd *ast.FuncDecl, info *ty
 		if deferUnlock && lockPos != token.NoPos && s.Pos() >= lockPos {
 			locked = true
 		}
-		out = append(out, Access{Field: key, Func: fname, Kind: kind, Locked: locked, After: after, Line: fset.Position(s.Pos()).Line})
+		out = append(out, Access{Field: key, Func: fname, Kind: kind, Locked: locked, After: after, Then: then, Line: fset.Position(s.Pos()).Line})
 		return true
 	})
 	return out
